@@ -236,6 +236,10 @@ class Model:
                         break
                     items.append(x)
                     self.L(Kw("item"), f.fid, a[1], x)
+                    if len(a) > 2 and a[2]:
+                        # the consumer itself suspends between two steps of the iteration
+                        got = yield ("yield", x)
+                        self.L(Kw("resumed"), f.fid, got)
                 self.L(Kw("each-done"), f.fid, a[1], Kw(c.status))
             elif kind == "defer":
                 try:
@@ -328,7 +332,7 @@ class Gen:
             elif c < 0.76 and kids:
                 acts.append(("status", r.choice(kids)))
             elif c < 0.80 and kids:
-                acts.append(("each", r.choice(kids)))
+                acts.append(("each", r.choice(kids), r.random() < 0.5))
             elif c < 0.88 and in_scope < 3:
                 tag = r.randrange(100)
                 inner = self.body(depth, 1, in_scope + 1)
@@ -382,7 +386,8 @@ def emit_block(acts, fid, indent=1, fiber_body=False):
         elif k == "status":
             out.append("(log :status %d %d (fiber/status F%d) (fiber/can-resume? F%d) (fiber/last-value F%d))" % (fid, a[1], a[1], a[1], a[1]))
         elif k == "each":
-            out.append("(each x F%d (log :item %d %d x)) (log :each-done %d %d (fiber/status F%d))" % (a[1], fid, a[1], fid, a[1], a[1]))
+            inner = " (log :resumed %d (yield x))" % fid if (len(a) > 2 and a[2]) else ""
+            out.append("(each x F%d (log :item %d %d x)%s) (log :each-done %d %d (fiber/status F%d))" % (a[1], fid, a[1], inner, fid, a[1], a[1]))
         elif k == "defer":
             out.append("(defer (log :cleanup %d %d)\n%s)" % (fid, a[1], emit_block(a[2], fid, indent + 1) or "nil"))
         elif k == "try":
